@@ -69,6 +69,15 @@ def gen(rng, k, tier, sms):
         pass
     if pool.get('shared_objects') is not None:
         call['_shared'] = pool['shared_objects']
+    if where == 'task' and k % 6 == 5 and 'shared_objects' not in pool and not pool.get('use_worker_state') and not pool.get('pass_worker_id'):
+        # numpy input: a task is an array chunk; the chunk whose first element is the key raises
+        call.update(input='ndarray', func='task_np', init=False, exit=False)
+        params.pop('iterable_len', None)
+        params.pop('n_splits', None)
+        cs = params.setdefault('chunk_size', 2)
+        behaviour['task'] = [{'at': 1000 + (b['at'] - 1000) // cs * cs, 'do': 'raise', 'exc': b['exc']} for b in behaviour['task']]
+        if rng.random() < 0.5:
+            pool['enable_insights'] = True
     sc = {'id': f'x{k}', 'pool': pool, 'calls': [call], 'budget': 60, 'behaviour': behaviour, 'shapes': sorted(set(shapes)),
           'where': where}
     if rng.random() < 0.3:
@@ -172,6 +181,12 @@ def oracle(rec):
         return f"the failing call took {out['wall']:.1f}s (> {LIMIT[sm]}s) to raise"
     # (4) everything yielded before the raise is a correct result
     part = out.get('partial', [])
+    if call.get('input') == 'ndarray':
+        rows = S.flatten_nd(part)
+        ok_rows = S.expected_value(call)[1]
+        if any(r not in ok_rows for r in rows):
+            return f"numpy call yielded wrong rows before raising: {str(rows)[:120]}"
+        return None
     exp = S.expected_value(call)
     if call['kind'] == 'imap':
         if part != exp[:len(part)]:
